@@ -97,6 +97,10 @@ impl Property for C13Prop {
         }
     }
 
+    fn max_steps(&self) -> usize {
+        60_000
+    }
+
     fn nontrivial_rule(&self) -> &'static str {
         "a run is non-trivial when events of at least two different sending tasks interleave on the session's channel or an event was sent while the session was inside a macrostep; distinct = distinct (scenario hash, interleaving signature) pairs, the signature being a hash of the task chosen at every context switch"
     }
